@@ -558,6 +558,12 @@ val count_eq : z -> z list -> z
 
 val com_sums : arr -> z list -> z -> z * z list
 
+val lbb_update : z list list -> z -> z list -> z list list
+
+val lbb_scan : arr -> z -> z list list
+
+val bbox_labeled : arr -> z -> z list list
+
 val qf_join : z list -> z -> z -> z list
 
 val label_pairs : arr -> arr -> (z * z) list
